@@ -220,3 +220,105 @@ def r_rpgap(db, rep):
                              "the compaction loop in %s has a path through its body that does not advance the cursor: it would not terminate" % f.qn, f.qn)
     if readers < 5:
         raise AnalysisBroken("expected >=5 compaction loops following gap pointers, found %d" % readers)
+
+
+BACKPTR = {"table": "kpos", "pairs": "hpos"}      # container array field -> Trecord field that records the slot
+
+
+def _arr_role(f, base):
+    """'table' / 'pairs' if the subscripted array is Thash::table / Tarray::pairs, or a local that the function later installs as one."""
+    s = strip(base)
+    if s["k"] == "MemberExpr" and s.get("n") in BACKPTR:
+        return s["n"]
+    if s["k"] == "DeclRefExpr" and s.get("dk") == "local":
+        d = s["d"]
+        for lv, w in written_lvalues(f):
+            l = strip(lv)
+            if l["k"] == "MemberExpr" and l.get("n") in BACKPTR and w.get("op") == "=" and w.get("rhs") is not None:
+                r = strip(w["rhs"])
+                if r["k"] == "DeclRefExpr" and r.get("d") == d:
+                    return l["n"]
+            # or a local alias OF the member (int *tab = H->table) is a reader, not a new table
+    return None
+
+
+@rule("R-BACKPTR", 8, "Re-Pair's pair records carry back-pointers into the hash table and the frequency arrays (kpos, hpos): every store of "
+                      "a record id into such a container slot is accompanied by the matching back-pointer update (same id, same slot), in the "
+                      "function itself or through its returned slot at every call site; deleteHash/hashRepos/incFreq index the containers by them")
+def r_backptr(db, rep):
+    for f in sorted(db.funcs.values(), key=lambda x: (x.file, x.line)):
+        if not f.file.startswith("RePair/Coder/") or not f.body:
+            continue
+        sb = SeqBuilder(db, f, "c", nosubst=True)
+        for lv, w in written_lvalues(f):
+            s = strip(lv)
+            if s["k"] != "ArraySubscriptExpr" or w.get("op") != "=" or w.get("rhs") is None:
+                continue
+            role = _arr_role(f, s["base"])
+            if role is None:
+                continue
+            cv = const_value(w["rhs"])
+            if cv is not None and cv < 0:
+                continue                      # free / deleted markers
+            fld = BACKPTR[role]
+            K, V = canon(sb.sym(s["idx"])), canon(sb.sym(w["rhs"]))
+            rep.visit(f)
+            rep.inst(f.nloc(w), "%s: %s[%s] = %s" % (f.qn, role, K, V))
+            rep.ob()
+            ok = None
+            # slot expression is the back-pointer itself
+            for x in walk(s["idx"]):
+                if x["k"] == "MemberExpr" and x.get("n") == fld:
+                    b = strip(x["base"])
+                    if b["k"] == "ArraySubscriptExpr" and canon(sb.sym(b["idx"])) == V:
+                        ok = "slot is rec[id].%s" % fld
+            # paired update in the same function
+            if ok is None:
+                for lv2, w2 in written_lvalues(f):
+                    s2 = strip(lv2)
+                    if s2["k"] == "MemberExpr" and s2.get("n") == fld and w2.get("op") == "=" and w2.get("rhs") is not None:
+                        b = strip(s2["base"])
+                        if b["k"] == "ArraySubscriptExpr" and canon(sb.sym(b["idx"])) == V and canon(sb.sym(w2["rhs"])) == K:
+                            comp1 = next((a for a in f.ancestors(w) if a["k"] == "CompoundStmt"), None)
+                            comp2 = next((a for a in f.ancestors(w2) if a["k"] == "CompoundStmt"), None)
+                            if comp1 is comp2:
+                                ok = "paired with rec[id].%s = slot at line %s" % (fld, w2.get("l"))
+            # slot returned, callers record it
+            if ok is None:
+                rets = [n for n in f.live_nodes() if n["k"] == "ReturnStmt" and n.get("value") is not None]
+                vparam = strip(w["rhs"])
+                if rets and all(canon(sb.sym(r["value"])) == K for r in rets) and vparam["k"] == "DeclRefExpr" and vparam.get("dk") == "param":
+                    pi = vparam["pi"]
+                    callers = []
+                    good = True
+                    for g in db.funcs.values():
+                        if not g.body:
+                            continue
+                        for c in g.calls():
+                            if c.get("f") == f.id:
+                                callers.append((g, c))
+                                par = g.parent(c)
+                                while par is not None and par["k"] in TRANSPARENT | EXPLICIT_CASTS:
+                                    par = g.parent(par)
+                                sg = SeqBuilder(db, g, "c", nosubst=True)
+                                fine = False
+                                if par is not None and is_assignment(par) and par.get("op") == "=":
+                                    l = strip(par["lhs"])
+                                    if l["k"] == "MemberExpr" and l.get("n") == fld:
+                                        b = strip(l["base"])
+                                        if b["k"] == "ArraySubscriptExpr" and canon(sg.sym(b["idx"])) == canon(sg.sym(c["args"][pi])):
+                                            fine = True
+                                if not fine:
+                                    good = False
+                                    rep.viol("%s#slot-dropped-by-%s" % (f.qn, g.qn), g.nloc(c),
+                                             "%s stores a record id into %s[] and returns the slot, but %s does not record it in rec[id].%s" % (f.qn, role, g.qn, fld), g.qn)
+                    if callers and good:
+                        ok = "slot returned; recorded by %d caller(s)" % len(callers)
+                    elif callers:
+                        ok = "reported at caller"
+            if ok is None:
+                rep.viol("%s#%s-without-%s" % (f.qn, role, fld), f.nloc(w),
+                         "%s stores record id %s into %s[%s] without setting rec[%s].%s to that slot: later deleteHash / hashRepos / incFreq use the stale "
+                         "back-pointer and corrupt or lose pairs (the compressor's output is then no longer the input's grammar)" % (f.qn, V, role, K, V, fld), f.qn)
+            else:
+                rep.notes.append("%s %s: %s" % (f.nloc(w), role, ok))
